@@ -8,7 +8,7 @@ map used for `p.<name>` access.
 import ast
 from collections import Counter, OrderedDict
 
-from .source import AnalysisError, const_str, dotted, unparse
+from .source import AnalysisError, const_str, dotted, unparse, norm
 
 DIALECTS = ('mindsdb', 'mysql', 'sqlite')
 
@@ -297,6 +297,19 @@ def _reflags(node):
     raise AnalysisError(f'unmodelled reflags expression {unparse(node)}')
 
 
+def _const_value(src, file, expr):
+    """value of a constant expression of a lexer class body (string literals, module-level constants, + % join, comprehensions), folded by the fail-closed
+    interpreter; None when it is not a constant"""
+    s = const_str(expr)
+    if s is not None:
+        return s
+    from .interp import Interp, Env, Raised
+    try:
+        return Interp.for_file(src, file).ev(expr, Env())
+    except (AnalysisError, Raised):
+        return None
+
+
 def extract_lexer(src, file, cls, _seen=None):
     tree = src.tree(file)
     c = _class(tree, cls, file)
@@ -332,9 +345,11 @@ def extract_lexer(src, file, cls, _seen=None):
             if k in ('tokens', 'literals', 'regex_module'):
                 continue
             pat = const_str(st.value)
+            if pat is None and (k in tokens or k.startswith('ignore_')):
+                pat = _const_value(src, file, st.value)
+                if not isinstance(pat, str):
+                    raise AnalysisError(f'{file}:{st.lineno}: token {k} is not a constant pattern string')
             if pat is None:
-                if k in tokens or k.startswith('ignore_'):
-                    raise AnalysisError(f'{file}:{st.lineno}: token {k} is not a string literal')
                 continue
             if k in own and own[k].func is None:
                 raise AnalysisError(f'{file}:{st.lineno}: lexer name {k} redefined (sly raises at import)')
@@ -345,10 +360,11 @@ def extract_lexer(src, file, cls, _seen=None):
                 if isinstance(d, ast.Call) and isinstance(d.func, ast.Name) and d.func.id == '_':
                     args = []
                     for a in d.args:
-                        s = const_str(a)
-                        if s is None:
-                            raise AnalysisError(f'{file}:{a.lineno}: lexer @_ argument is not a string literal')
-                        args.append(s)
+                        v = _const_value(src, file, a.value if isinstance(a, ast.Starred) else a)
+                        vs = list(v) if isinstance(a, ast.Starred) and isinstance(v, (list, tuple)) else [v]
+                        if not all(isinstance(x, str) for x in vs):
+                            raise AnalysisError(f'{file}:{a.lineno}: lexer @_ argument `{norm(a)}` is not a constant pattern string')
+                        args.extend(vs)
                     pats.append(args)
             if pats:
                 # decorators apply bottom-up; each application puts its pattern in front
